@@ -3,13 +3,17 @@
    observed threshold is also compared with the exact-rational twin (differential tie of the
    float model to the twin on which the real-number theorems are proved). *)
 From Coq Require Import Floats.
-From SG Require Export Base.Prelude Base.GoInt Base.GoFloat Model.Adaptive Model.WarmUp.
+From SG Require Export Base.Prelude Base.GoInt Base.GoFloat Model.Adaptive Model.WarmUp Model.Throttle Model.WarmUpThrottle.
 #[local] Open Scope Z_scope.
 
 Inductive case :=
 | Mem (id : Z) (lowT highT lowW highW : Z) (readings : list (Z * float))
 | WU (id : Z) (T : float) (period cf0 : Z) (ops : list (Z * Z)) (observed : list (float * bool * Z))
      (warning maxt : Z) (slope : float)
+(* a warm-up rule with ControlBehavior = Throttling and the given queueing limit (ms); per request also
+   the wait (ns) the flow slot was asked to sleep *)
+| WUT (id : Z) (T : float) (period cf0 maxq_ms : Z) (ops : list (Z * Z)) (observed : list (float * bool * Z))
+      (waits : list Z) (warning maxt : Z) (slope : float)
 | Consts (id : Z) (bucket window cold_default not_retrieved_value : Z).
 
 Definition obs_eqb (a b : float * bool * Z) : bool :=
@@ -44,12 +48,17 @@ Definition case_ok (c : case) : bool :=
       let c := mk_wcfg T p cf0 in
       (w_warning c =? w) && (w_max c =? m) && feqb (w_slope c) sl &&
       list_eqb obs_eqb (wrun c winit ops) observed && wu_twin_ok T c observed
+  | WUT _ T p cf0 mq ops observed waits w m sl =>
+      let c := mk_wcfg T p cf0 in
+      let r := wrun_thr c mq winit last0 ops in
+      (w_warning c =? w) && (w_max c =? m) && feqb (w_slope c) sl &&
+      list_eqb obs_eqb (map fst r) observed && list_eqb Z.eqb (map snd r) waits && wu_twin_ok T c observed
   | Consts _ b w cd nr =>
       (b =? bucket_ms) && (w =? window_ms) && (cd =? default_cold_factor) && (nr =? not_retrieved)
   end.
 
 Definition case_id (c : case) : Z :=
-  match c with Mem id _ _ _ _ _ => id | WU id _ _ _ _ _ _ _ _ => id | Consts id _ _ _ _ => id end.
+  match c with Mem id _ _ _ _ _ => id | WU id _ _ _ _ _ _ _ _ => id | WUT id _ _ _ _ _ _ _ _ _ _ => id | Consts id _ _ _ _ => id end.
 
 Definition mismatches (cs : list case) : list Z :=
   map case_id (filter (fun c => negb (case_ok c)) cs).
